@@ -99,6 +99,50 @@ fn log_un(func: &str, via: &str, l: &P, ret: &str) {
     log_push(format!("[\"{}\",\"{}\",{},{}]", func, via, l.arg(), ret));
 }
 
+// ---------------------------------------------------------------- decoys
+// Inherent methods named like the trait methods, all behaving *differently* (and logging as "inherent"): method-call
+// syntax (`x.clone()`, `a.eq(b)`) in generated code would reach these instead of the trait impls, and the trace
+// specification knows no "inherent" call.
+pub const G_DECOY: u8 = 9;
+#[allow(clippy::should_implement_trait, clippy::wrong_self_convention)]
+impl P {
+    pub fn clone(&self) -> P {
+        log_un("clone", "inherent", self, "0");
+        P { s: self.s, f: self.f, v: self.v, g: G_DECOY }
+    }
+    pub fn clone_from(&mut self, src: &P) {
+        log_bin("clone_from", "inherent", self, src, "0");
+        self.g = G_DECOY;
+    }
+    pub fn eq(&self, o: &P) -> bool {
+        log_bin("eq", "inherent", self, o, "false");
+        false
+    }
+    pub fn ne(&self, o: &P) -> bool {
+        log_bin("ne", "inherent", self, o, "false");
+        false
+    }
+    pub fn cmp(&self, o: &P) -> Ordering {
+        log_bin("cmp", "inherent", self, o, "\"Greater\"");
+        Ordering::Greater
+    }
+    pub fn partial_cmp(&self, o: &P) -> Option<Ordering> {
+        log_bin("partial_cmp", "inherent", self, o, "\"None\"");
+        None
+    }
+    pub fn hash<H: Hasher>(&self, state: &mut H) {
+        log_un("hash", "inherent", self, "0");
+        state.write_u8(0xEE);
+    }
+    pub fn fmt(&self, f: &mut std::fmt::Formatter<'_>) -> std::fmt::Result {
+        log_un("fmt", "inherent", self, "0");
+        f.write_str("inherent")
+    }
+    pub fn default() -> P {
+        P { s: 3, f: 0, v: 0, g: G_DECOY }
+    }
+}
+
 // ---------------------------------------------------------------- probe semantics (own impls)
 
 impl PartialEq for P {
@@ -525,8 +569,31 @@ impl AVal {
 /// all abstract values of T over `dom`, in a fixed order
 pub fn all_values<T: Case>(dom: &[i8]) -> Vec<AVal> {
     let mut out = Vec::new();
-    for v in 1..=T::nvariants() {
+    let nv = T::nvariants();
+    for v in 1..=nv {
+        // an enum with very many variants: only the variants around the one- and two-byte boundaries and the ends
+        if nv > 40 && !(v <= 2 || v + 1 >= nv || (127..=130).contains(&v) || (255..=259).contains(&v)) {
+            continue;
+        }
         let n = T::nfields(v);
+        if n > 6 {
+            // a wide variant: a sparse set of values -- all-low, all-high, alternating, and every single-field
+            // deviation of the first two
+            let (lo, hi) = (dom[0], dom[dom.len() - 1]);
+            let mut push = |f: Vec<i8>| out.push(AVal { v, f });
+            push(vec![lo; n]);
+            push(vec![hi; n]);
+            push((0..n).map(|i| if i % 2 == 0 { lo } else { hi }).collect());
+            for i in 0..n {
+                let mut f = vec![lo; n];
+                f[i] = hi;
+                push(f);
+                let mut g = vec![hi; n];
+                g[i] = lo;
+                push(g);
+            }
+            continue;
+        }
         let total = dom.len().pow(n as u32);
         for mut k in 0..total {
             let mut f = vec![0i8; n];
